@@ -55,6 +55,8 @@ LOWER_GLUE = ["Module::resolve_special_instrumentation: the per-function driver 
 
 V18_TYPES = ["V18_parse_types.convert_subtype.*", "V18_parse_types.fn:Module::convert_subtype", "V18_parse_types.parse_type_section.*", "V18_parse_types.fn:Module::parse_type_section", "V18_parse_types.DataType.from_storage_type.*", "V18_parse_types.fn:DataType as From::from", "V18_parse_types.fn:RecGroup::new", "V18_parse_types.fn:lemma_*", "V18_parse_types.fn:Error as From::from"]
 V18_TRUST = "type-section arm of parse_internal (V18): wasmparser's SubType / CompositeType / FieldType / ArrayType / StructType / ContType / StorageType are taken as they are (public fields); FuncType through params() / results(); a recursion group through two uninterpreted observers (explicitness, member list) behind wrappers that stand for `ty.clone()?.is_explicit_rec_group()` and `ty?.types()`; DataType::from(ValType) is an uninterpreted dt_of (total on what the reader yields - it panics on UnpackedIndex::Id, which only the validator produces; exactness: Kani K1); derived Clone of CompositeInnerType / Types yield equal values; precondition: the type ids handed out so far are 0..n and the section fits below 2^32"
+V19_CODE = ["V19_parse_code.parse_code_entry.*", "V19_parse_code.fn:Module::parse_code_entry", "V19_parse_code.fn:lemma_*", "V19_parse_code.fn:Error as From::from"]
+V19_TRUST = "code-entry arm of parse_internal (V19): a function body of the reader is two sequences of items (local declarations, operators; an entry or a read error each, the sum of the declared counts fits u32 - LocalsReader::read fails with 'too many locals' otherwise); the two `collect::<Result<Vec<_>, _>>()` over the external iterators are named wrappers ASSUMED to gather all entries or hand on an error; DataType::from(ValType) as dt_of; Instruction::new gives the operator with an empty flag (derived Default); `num_locals += count` (a `&u32` operand) is read as `+= *count` (std's forwarding impl)"
 V17_SKELETON = ["V17_encode_skeleton.encode_internal.*", "V17_encode_skeleton.fn:Module::encode_internal", "V17_encode_skeleton.fn:lemma_prefix_*", "V17_encode_skeleton.fn:*::is_empty",
                 "V12_sections.encode_globals.nothing_a_section_guard_reads_changes", "V12_sections.encode_data_segments.nothing_a_section_guard_reads_changes", "V11_emit.encode_code_section.nothing_a_section_guard_reads_changes"]
 V17_TEXT = "the function as a whole (unit V17): with every region replaced by a call of its synthetic function, what is left of encode_internal is verified against the regions' contracts: the sections are handed to the module in the order the binary format prescribes, each exactly when its part of the module is there (name section always, then one custom section per stored one); the lowering pass gets the three maps of the head, each in its own position. The CONTENT contracts of the regions are not composed there (their preconditions - e.g. 'every live export designates a live item' - are not derived from the head's postcondition): what each section contains is decided per region"
@@ -115,21 +117,21 @@ PROPS = {
     },
     "C02": {
         "title": "Unmodified round trip preserves module content",
-        "units": ["V3_remap", "V9b_conv", "V11_emit", "V12_sections", "V10_parse", "V13_constexpr", "V14_types_emit", "V17_encode_skeleton", "V6b_api2", "V18_parse_types"],
-        "obligations_extra": V14_TYPES + V13_CONSTEXPR + V10_PARSE_SECTIONS + V11_EMIT + V11_CODE + V12_TAGS + V12_TABLES + V12_ELEMS + V12_CEXPR + V12_IMPORTS + V12_EXPORTS + V12_START + V12_DATA + V12_GLOBALS + V12_MEMS + V12_CUSTOM + V17_SKELETON + PARSE_IDS_FUNCS + PARSE_IDS_GLOBALS + PARSE_IDS_MEMS + V18_TYPES
+        "units": ["V3_remap", "V9b_conv", "V11_emit", "V12_sections", "V10_parse", "V13_constexpr", "V14_types_emit", "V17_encode_skeleton", "V6b_api2", "V18_parse_types", "V19_parse_code"],
+        "obligations_extra": V14_TYPES + V13_CONSTEXPR + V10_PARSE_SECTIONS + V11_EMIT + V11_CODE + V12_TAGS + V12_TABLES + V12_ELEMS + V12_CEXPR + V12_IMPORTS + V12_EXPORTS + V12_START + V12_DATA + V12_GLOBALS + V12_MEMS + V12_CUSTOM + V17_SKELETON + PARSE_IDS_FUNCS + PARSE_IDS_GLOBALS + PARSE_IDS_MEMS + V18_TYPES + V19_CODE
                              + ["V12_sections.encode_type_section.groups_in_order_explicit_ones_as_one_rec_entry", "V12_sections.fn:Module::encode_type_section", "V12_sections.encode_names.*", "V12_sections.fn:Module::encode_names"],
         "kani": ["k1_valtype_roundtrip", "k1_valtype_roundtrip_exn_cont", "k1_valtype_encoder_matches_upstream", "k4_v128_bytes_preserved", "k4_ieee32_from_float_bits", "k4_ieee64_from_float_bits"],
         "kani_thorough": ["k5_spec_global_get", "k5_spec_ref_func", "k5_spec_struct_new", "k5_spec_struct_new_default", "k5_spec_array_new", "k5_spec_array_new_default", "k5_spec_ref_i31"],   # about 4 min of CBMC together: thorough tier only
         "obligations": ["K:k5_spec_*"] + ["K:k1_*", "K:k4_*", "V3_remap.lemma.identity_remap_is_noop", "V3_remap.fn:lemma_identity_remap_is_noop", "V3_remap.fix_op_id_mapping.*", "V3_remap.fn:fix_op_id_mapping", "V3_remap.update_*", "V3_remap.fn:update_*", "V3_remap.refers_to_*", "V3_remap.fn:refers_to_*",
                         "V9b_conv.*.into_wasmparser.*", "V9b_conv.fn:* as From::from"],
-        "glue": [V18_TRUST, V17_TEXT, V14_TRUST] + [V13_TRUST] + V11_TRUST + V12_TRUST + ["of parse_internal the import, function, memory, global, export, element, data and tag arms are regions under contract, with InitExpr::eval (every constant instruction is read into its IR counterpart with its own immediates in their own positions; anything else is an error) (the import arm with ModuleImports::new: each counter is the number of imports of its kind, nothing counted as added) (V10: the IR holds exactly the entries the section reader yields, in order, with their own contents, and a read error anywhere - also in an element segment's own item reader - makes the parse fail), against a TRUSTED model of wasmparser's section readers (a reader denotes a finite sequence of entries / read errors and iterating yields it front to back; `collect` of a reader is ASSUMED to gather it); the `.map(closure).collect::<Result<_, _>>()?` / `extend(..map(..))` chains of those arms are written as loops by rules R24 / R25; Result::and_then is ASSUMED with its textbook meaning; of the table arm only the number of stored tables and the error behaviour are decided (what a stored table holds is computed by a closure handed to Result::map, whose result Verus does not know without an annotation in the source); the type and code-entry arms, the start / data-count payloads, the name and custom sections are NOT under contract; of encode_internal every section's emission loop is a region under contract (V11 / V12) against TRUSTED models of wasm-encoder's section builders; that the sections are appended to the module in the standard order, and the `if !..is_empty()` guards around them, are read off the text",
+        "glue": [V19_TRUST, V18_TRUST, V17_TEXT, V14_TRUST] + [V13_TRUST] + V11_TRUST + V12_TRUST + ["of parse_internal the import, function, memory, global, export, element, data and tag arms are regions under contract, with InitExpr::eval (every constant instruction is read into its IR counterpart with its own immediates in their own positions; anything else is an error) (the import arm with ModuleImports::new: each counter is the number of imports of its kind, nothing counted as added) (V10: the IR holds exactly the entries the section reader yields, in order, with their own contents, and a read error anywhere - also in an element segment's own item reader - makes the parse fail), against a TRUSTED model of wasmparser's section readers (a reader denotes a finite sequence of entries / read errors and iterating yields it front to back; `collect` of a reader is ASSUMED to gather it); the `.map(closure).collect::<Result<_, _>>()?` / `extend(..map(..))` chains of those arms are written as loops by rules R24 / R25; Result::and_then is ASSUMED with its textbook meaning; of the table arm only the number of stored tables and the error behaviour are decided (what a stored table holds is computed by a closure handed to Result::map, whose result Verus does not know without an annotation in the source); the type and code-entry arms, the start / data-count payloads, the name and custom sections are NOT under contract; of encode_internal every section's emission loop is a region under contract (V11 / V12) against TRUSTED models of wasm-encoder's section builders; that the sections are appended to the module in the standard order, and the `if !..is_empty()` guards around them, are read off the text",
                  "InitExpr::eval / to_wasmencoder_type (constant expressions) are not under contract: only the bit-exactness of the float / v128 wrappers they use is proved"],
         "design_ref": "DESIGN.md §4 K1 K4, §5 C02",
         "level_text": "Instructions survive encode's in-place id rewrite when nothing was edited (identity maps leave every operator unchanged: corollary of the exact remap contract), value types survive the IR, float / v128 constants keep their bits. Of the sections, the ENCODE side is under contract region by region (every stored type group, import, function type index, table, memory, tag, global, export, start function, element segment, function body, data segment and custom section is emitted in stored order with its own contents); of the PARSE side the import, function, memory, global, export, element, data and tag arms are under contract (the IR holds exactly what the section readers yield, in order), the other arms are glue.",
     },
     "C03": {
         "title": "Parsing never panics",
-        "units": ["V10_parse", "V7_types", "V6_api", "V18_parse_types"],
+        "units": ["V10_parse", "V7_types", "V6_api", "V18_parse_types", "V19_parse_code"],
         "obligations": ["V10_parse.InitExpr.eval.*", "V10_parse.fn:InitExpr::eval", "V10_parse.DataSegmentKind.*", "V10_parse.fn:DataSegmentKind::from_wasmparser",
                         "V10_parse.Global.*", "V10_parse.fn:Global::from_wasmparser", "V10_parse.fn:Error as From::from",
                         "V10_parse.parse_tag_section.*", "V10_parse.fn:parse_tag_section", "V10_parse.parse_function_names.*", "V10_parse.fn:parse_function_names",
@@ -137,8 +139,8 @@ PROPS = {
                         "V10_parse.build_local_functions.*", "V10_parse.fn:build_local_functions", "V10_parse.add_to_sections.*", "V10_parse.fn:Component::add_to_sections", "V10_parse.parse_module_section.*", "V10_parse.fn:parse_module_section", "V10_parse.parse_component_section.*", "V10_parse.fn:Component::parse_component_section", "V10_parse.fn:Function::new", "V10_parse.fn:Import::is_function",
                         "V7_types.fn:ModuleTypes::new", "V6_api.fn:LocalFunction::new"],
         # the section arms of parse_internal / parse_comp that are under contract for C02 / C27: a verified function cannot panic
-        "obligations_extra": V18_TYPES + V10_PARSE_SECTIONS + ["V10_parse.parse_comp_*_section.*", "V10_parse.fn:Component::parse_comp_*_section", "V10_parse.fn:lemma_first_err"],
-        "glue": [V18_TRUST, "the payload loops of Module::parse_internal and Component::parse_comp (480 + 300 lines) are NOT under contract as a whole; regions of parse_internal are (rule R16): the type / tag / export / element / import / global / memory / function / data / table section arms (whatever the reader yields - any entries, a read error anywhere - the arm returns Ok or Err, it does not panic; the import arm assumes a section has at most 2^32-1 entries, which the binary format's u32 count guarantees), the function-names loop, the application of the names, the producers section, the construction of the functions / globals / memories at the end; and of parse_comp: the core-module and nested-component section arms (slicing the input with the unchecked range of the section header) and the eight plain section arms. The code-entry arm, the start / custom / name arms and `_ => todo!()` (unreachable for this wasmparser version: every Payload variant is listed) are not decided",
+        "obligations_extra": V19_CODE + V18_TYPES + V10_PARSE_SECTIONS + ["V10_parse.parse_comp_*_section.*", "V10_parse.fn:Component::parse_comp_*_section", "V10_parse.fn:lemma_first_err"],
+        "glue": [V19_TRUST, V18_TRUST, "the payload loops of Module::parse_internal and Component::parse_comp (480 + 300 lines) are NOT under contract as a whole; regions of parse_internal are (rule R16): the type / tag / export / element / import / global / memory / function / data / table section arms and the code-entry arm (whatever the reader yields - any entries, a read error anywhere - the arm returns Ok or Err, it does not panic; the import arm assumes a section has at most 2^32-1 entries, which the binary format's u32 count guarantees), the function-names loop, the application of the names, the producers section, the construction of the functions / globals / memories at the end; and of parse_comp: the core-module and nested-component section arms (slicing the input with the unchecked range of the section header) and the eight plain section arms. The start / custom / name arms and `_ => todo!()` (unreachable for this wasmparser version: every Payload variant is listed) are not decided",
                  "rule R18: loops over wasmparser section readers are written as `loop { match next() .. }`; the readers are TRUSTED to yield any item or error and to terminate",
                  "the precondition functions.len() == code_sections.len() of the local-functions region is established by the IncorrectCodeCounts check a few lines above it (read, not proved)",
                  "TRUSTED model of the operator reader: read() returns any operator or an error and consumes at least one byte when it succeeds"],
